@@ -76,6 +76,8 @@ pub fn refactor_lib_opts(rng: &mut Rng, tier: Tier, subdirs: bool, cell_links: b
     // front matter: a refactoring rewrites whole notes and must carry it along
     o.profile.meta = true;
     o.profile.long_lists = 0;
+    // section headings with a bare wiki link: the reference an extract leaves behind is titled with the heading as shown
+    o.profile.wiki_in_section_headings = true;
     o.self_links = false;
     o.crlf = false;
     let lib = libgen::gen_lib(rng, &o);
